@@ -42,11 +42,14 @@ func SignKeyFromFixture(k jose.JSONWebKey, alg jose.SignatureAlgorithm, kid stri
 	return sk
 }
 
-// AlgFamilies lists the signing algorithms the worlds rotate through, with the fixture prefix that fits each.
-var AlgFamilies = []struct {
+// AlgFamily is a signing algorithm together with the prefix of its fixture keys.
+type AlgFamily struct {
 	Alg    jose.SignatureAlgorithm
 	Prefix string
-}{
+}
+
+// AlgFamilies lists the signing algorithms the worlds rotate through, with the fixture prefix that fits each.
+var AlgFamilies = []AlgFamily{
 	{jose.RS256, "rsa"}, {jose.RS384, "rsa"}, {jose.RS512, "rsa"}, {jose.PS256, "rsa"},
 	{jose.ES256, "p256-"}, {jose.ES384, "p384-"}, {jose.ES512, "p521-"}, {jose.EdDSA, "ed"},
 }
